@@ -448,3 +448,7 @@ mod tests {
         assert!(output.is_err());
     }
 }
+
+#[cfg(all(test, feature = "pendulum_project_ntpd_rs_verif"))]
+#[path = "../../../verif/harness/ntp_proto/keyset.rs"]
+mod verif_keyset;
